@@ -63,6 +63,15 @@ pub fn asan_phase(def: &'static PropDef, sum: &mut Summary, tier: Tier, seed: u6
   for c in &crashes {
     let kind = c["kind"].as_str().unwrap_or("");
     if let Some(k) = kind.strip_prefix("asan-") {
+      // A thread stack is an mmap'ed region next to other mappings: when unbounded recursion runs
+      // off its end ASan may describe the access as a heap-buffer-overflow. Stack exhaustion is
+      // judged by the plain run (known findings by recursing function set), so a report on a case
+      // that also kills the uninstrumented worker (or makes it spin) is not judged here.
+      let case = c["case"].as_u64().unwrap_or(0);
+      if plain_run_dies(def, seed, case) {
+        *sum.counters.entry("asan:reports_on_cases_that_exhaust_the_stack_without_asan_not_judged_here".into()).or_insert(0) += 1;
+        continue;
+      }
       reports += 1;
       let call = c["call"].as_str().unwrap_or("").split('\t').next().unwrap_or("");
       let entry = call.split('/').next().unwrap_or("");
@@ -158,5 +167,30 @@ pub fn miri_phase(def: &'static PropDef, sum: &mut Summary, tier: Tier, seed: u6
   sum.counters.insert("miri:undefined_behaviour_reports".into(), ub);
   if evals == 0 {
     sum.inconclusive.push("sanitizer phase: the Miri run evaluated nothing".into());
+  }
+}
+
+/// does the uninstrumented harness die (signal / abort) or exceed 60 s on this single case?
+fn plain_run_dies(def: &'static PropDef, seed: u64, case: u64) -> bool {
+  let exe = match std::env::current_exe() {
+    Ok(e) => e,
+    Err(_) => return false,
+  };
+  let asan = std::env::var("ASAN_OPTIONS").ok();
+  std::env::remove_var("ASAN_OPTIONS");
+  let st = Command::new("timeout")
+    .arg("60")
+    .arg(exe)
+    .args(["child", def.id, "--seed", &seed.to_string(), "--tier", "quick", "--from", &case.to_string(), "--to", &(case + 1).to_string(), "--step", "1", "--out", "/dev/null"])
+    .stdin(Stdio::null())
+    .stdout(Stdio::null())
+    .stderr(Stdio::null())
+    .status();
+  if let Some(a) = asan {
+    std::env::set_var("ASAN_OPTIONS", a);
+  }
+  match st {
+    Ok(s) => !s.success(),
+    Err(_) => false,
   }
 }
